@@ -1445,6 +1445,8 @@ func (r *Runtime) RunProgram(p *Program) (result Value, err error) {
 			if ex := asUncatchableException(x); ex != nil {
 				err = ex
 				if len(vm.callStack) == 0 {
+					vm.prg = nil
+					vm.sb = -1
 					r.leaveAbrupt()
 				}
 			} else {
